@@ -374,6 +374,15 @@ def run(P, rep, tier):
     r_return_conversion(P, rep)
     from .c16 import r_atomic_operand_type
     r_atomic_operand_type(P, rep, 'R01.4')
+    from ..report import Report, reissue
+    from ..lib_c04 import r_vla_arith
+    rep.rule('R01.3v', 'pointer arithmetic on variably modified types: p+n, n+p, p-n scale by the run-time row size, p-q is the SIGNED byte difference divided by it (shared with C04 R04.13)', floor=20)
+    r_vla_arith(P, rep, 'R01.3v')
+    from . import c07
+    rep.rule('R01.11', 'integer constant expressions have the C11 value: every arm of the constant folder computes what the generated code computes for the node\'s type (signedness-directed operators, result normalisation, conversions incl. same-width sign changes, selection in ?:, zero divisors diagnosed); same obligations as C07', floor=100)
+    sub = Report('C07')
+    c07.run(P, sub, tier)
+    reissue(rep, 'R01.11', sub, 'a constant expression would have another value than the same expression evaluated at run time: ')
     from .c03 import r_logic
     rep.rule('R01.10', '&& and ||: the left operand is evaluated and tested first, the right operand only when it decides the result, each operand is compared with zero at its own type and width, and the result is the int 0 or 1', floor=8)
     r_logic(cg, rep, 'R01.10')
